@@ -26,4 +26,18 @@ var plans = map[string]Plan{
 			"retained memory is not a verdict (allocator noise); goroutines pin the VM they reference, so a goroutine leak implies retention",
 		},
 	},
+	"C09": {
+		Pkg: "c09",
+		Runs: []Run{
+			{Test: "^TestProps$/^sched_independent$", Checks: checks(150, 4000), Shards: shards(4, 8)},
+			{Test: "^TestProps$/^sched_independent_pipelined$", Checks: checks(150, 4000), Shards: shards(4, 8)},
+			{Test: "^TestProps$", Checks: checks(40, 1200), Shards: shards(3, 8), Race: true},
+		},
+		Assumptions: []string{
+			"schedules are perturbed by the verif-tagged yield hook in Processor_execute plus GOMAXPROCS; an interleaving these cannot provoke is not explored",
+			"delay maps are not generated (a multi-valued distribution samples the global math/rand/v2 source: randomness by design)",
+			"the number type passed to SinglePipelineSimulate has the register width of the machine",
+			"a race report or digest mismatch that depends on the schedule may not reproduce from the saved case; the saved race report is the artefact",
+		},
+	},
 }
